@@ -142,7 +142,12 @@ class VerifyAttrs(object):
 
         if ast.typemap is None:
             print("XXXXXX typemap is None")
-        for arg in ast.params:
+        for iarg, arg in enumerate(ast.params):
+            if arg.name is None:
+                # The wrappers name their variables after the argument.
+                raise RuntimeError(
+                    "Argument {} of function '{}' must have a name at line {}"
+                    .format(iarg + 1, ast.name, node.linenumber))
             self.check_arg_attrs(node, arg)
 
         if node.fortran_generic:
